@@ -136,3 +136,50 @@ def write_object(cls, le, machine, target_name, target_data, relocs, symbols, re
         pos += len(d)
     pad = (-pos) % 8
     return _ehdr(cls, le, pos + pad, len(table), len(table) - 1, machine) + body + b'\x00' * pad + b''.join(table)
+
+
+# ---------------------------------------------------------------- section-less executables with a dynamic segment (C09)
+PT_LOAD, PT_DYNAMIC = 1, 2
+DT = dict(DT_NULL=0, DT_NEEDED=1, DT_PLTRELSZ=2, DT_HASH=4, DT_STRTAB=5, DT_SYMTAB=6, DT_RELA=7, DT_RELASZ=8, DT_RELAENT=9, DT_STRSZ=10,
+          DT_SYMENT=11, DT_SONAME=14, DT_RPATH=15, DT_REL=17, DT_RELSZ=18, DT_RELENT=19, DT_PLTREL=20, DT_JMPREL=23, DT_RUNPATH=29,
+          DT_RELRSZ=35, DT_RELR=36, DT_RELRENT=37, DT_GNU_HASH=0x6ffffef5)
+
+
+def _phdr(cls, le, typ, off, vaddr, filesz, flags=4):
+    e = '<' if le else '>'
+    if cls == 64:
+        return struct.pack(e + 'IIQQQQQQ', typ, flags, off, vaddr, vaddr, filesz, filesz, 8)
+    return struct.pack(e + 'IIIIIIII', typ, off, vaddr, vaddr, filesz, filesz, flags, 8)
+
+
+def write_dynamic_exec(cls, le, machine, blobs, tags, base=0x10000):
+    """ET_DYN image without section headers: [Ehdr | 2 Phdrs | blobs... | dynamic array]; one PT_LOAD maps the whole
+    file at `base`, PT_DYNAMIC designates the dynamic array.  blobs: [(key, bytes)]; tags: [(tag name, value or
+    ('ptr', key) for the virtual address of a blob)].  Returns (image, {key: file offset})."""
+    e = '<' if le else '>'
+    hsz, psz = (64, 56) if cls == 64 else (52, 32)
+    pos = hsz + 2 * psz
+    offs, body = {}, b''
+    for k, d in blobs:
+        pad = (-pos) % 8
+        body += b'\x00' * pad
+        pos += pad
+        offs[k] = pos
+        body += d
+        pos += len(d)
+    pad = (-pos) % 8
+    body += b'\x00' * pad
+    pos += pad
+    dyn_off = pos
+    dyn = b''
+    for t, v in tags:
+        val = base + offs[v[1]] if isinstance(v, tuple) else v
+        dyn += struct.pack(e + ('qQ' if cls == 64 else 'iI'), DT[t] if DT[t] < 2 ** 31 else DT[t] - (2 ** 64 if cls == 64 else 2 ** 32), val)
+    total = dyn_off + len(dyn)
+    ident = b'\x7fELF' + bytes([1 if cls == 32 else 2, 1 if le else 2, 1, 0]) + b'\x00' * 8
+    if cls == 64:
+        eh = ident + struct.pack(e + 'HHIQQQIHHHHHH', 3, machine, 1, 0, hsz, 0, 0, 64, 56, 2, 64, 0, 0)
+    else:
+        eh = ident + struct.pack(e + 'HHIIIIIHHHHHH', 3, machine, 1, 0, hsz, 0, 0, 52, 32, 2, 40, 0, 0)
+    ph = _phdr(cls, le, PT_LOAD, 0, base, total, 5) + _phdr(cls, le, PT_DYNAMIC, dyn_off, base + dyn_off, len(dyn), 6)
+    return eh + ph + body + dyn, offs
